@@ -130,6 +130,24 @@ def run(tier, wd, drivebin, nrandom=None):
     return violations, nev, acts, len(behs)
 
 
+def stress(tier, wd, drivebin):
+    """Valid subscriptions from sixteen keys and notifications for all of them at once on one real service.
+    Returns (crashed, detail)."""
+    os.makedirs(wd, exist_ok=True)
+    p = subprocess.run([drivebin, "webhook-stress", "2" if tier == "quick" else "15"], cwd=wd, stdout=subprocess.PIPE,
+                       stderr=subprocess.PIPE, text=True, timeout=600)
+    last = p.stdout.strip().splitlines()[-1] if p.stdout.strip() else ""
+    if p.returncode == 0:
+        return False, last
+    err = p.stderr or ""
+    if "fatal error" in err or "panic:" in err:
+        first = [l for l in err.splitlines() if l.startswith(("fatal error", "panic:"))][:1]
+        return True, (first[0] if first else "crash") + " (Webhooks requests and notifications overlapping on one node)"
+    if p.returncode == 3:
+        return True, "valid subscriptions refused or notified at the wrong endpoint after overlapping requests: " + last
+    raise Inconclusive("webhook stress driver failed (rc=%s): %s" % (p.returncode, err[-300:]))
+
+
 def check(prop, tier):
     t0 = time.time()
     wd = rundir("%s-%s" % (prop, tier))
@@ -137,6 +155,11 @@ def check(prop, tier):
     mc = run_mc(wd, tier)
     log("[mc] Webhooks %s" % mc)
     violations, nev, acts, nb = run(tier, os.path.join(wd, "tv"), drivebin)
+    crashed, detail = stress(tier, os.path.join(wd, "stress"), drivebin)
+    if crashed:
+        violations.append(dict(what="overlapping requests", event={"a": "Stress", "detail": detail}, behaviour={}))
+    else:
+        log("[stress] " + detail)
     if violations:
         for v in violations:
             log("  webhook subscriptions: %s at %s" % (v["what"], json.dumps(v["event"])[:300]))
